@@ -104,6 +104,8 @@ structure DS where
   all : List (List UInt8) := []      -- segments of the case, reversed
   up : Option UpS := none            -- upgrade hand-off case
   upSeen : List UInt8 := []          -- every byte of a hand-off case so far
+  sendq : Nat := 0                   -- round trip: size of the sender's send queue (0 = direct writes)
+  sendqFrom : String := "c"
   -- round trip
   gc : Cfg := ⟨false, false, 0, 0, 32768, true⟩
   c : S := {}
@@ -168,7 +170,8 @@ partial def loop (h : IO.FS.Stream) (d : DS) : IO Unit := do
     let comp := f "compress" == "1"
     let g : Cfg := { enableCompression := comp, writeCompression := comp, msgLimit := (f "limit").toNat!,
                      readLimit := 0, maxFrame := (f "maxframe").toNat!, isClient := false }
-    IO.println "ok"; loop h { mode := "rt", g, gc := { g with isClient := true } }
+    IO.println "ok"; loop h { mode := "rt", g, gc := { g with isClient := true }, sendq := ((field ws "sendq").getD "0").toNat!,
+                              sendqFrom := (field ws "from").getD "c" }
   | "C" :: "mask" :: _ => IO.println "ok"; loop h { mode := "mask" }
   | "C" :: "hs" :: _ => IO.println "ok"; loop h { mode := "hs" }
   | "Q" :: _ =>
@@ -246,6 +249,18 @@ partial def loop (h : IO.FS.Stream) (d : DS) : IO Unit := do
     | some e =>
       IO.println s!"R err={e.code} cache={r.s.cache.length} msglen={msgLen r.s} {showActs r.acts}"
       loop h { d with s := r.s, dead := true }
+  | "XC" :: code :: sp :: _ =>
+    if d.mode != "recv" then IO.println "bad-op"; loop h d else
+    let (k, r) := appWriteClose d.g (mkEnv ws "keys" d.s.k.nwrites) d.s.k code.toNat! (bytesOf sp)
+    match r with
+    | .ok wr => IO.println s!"XC cerr=0 cw={showActs (wr.map Act.write)}"; loop h { d with s := { d.s with k } }
+    | .error e => IO.println s!"XC cerr={e.code} cw=[]"; loop h { d with s := { d.s with k } }
+  | "XF" :: op :: so :: fin :: sp :: _ =>
+    if d.mode != "recv" then IO.println "bad-op"; loop h d else
+    let (k, r) := appWriteFrame d.g (mkEnv ws "keys" d.s.k.nwrites) d.s.k op.toNat! (so == "1") (fin == "1") (bytesOf sp)
+    match r with
+    | .ok wr => IO.println s!"XF cerr=0 cw={showActs (wr.map Act.write)}"; loop h { d with s := { d.s with k } }
+    | .error e => IO.println s!"XF cerr={e.code} cw=[]"; loop h { d with s := { d.s with k } }
   | "X" :: op :: sp :: _ =>
     if d.mode != "recv" then IO.println "bad-op"; loop h d else
     let (k, r) := appWrite d.g (mkEnv ws "keys" d.s.k.nwrites) d.s.k op.toNat! (bytesOf sp)
@@ -276,20 +291,26 @@ partial def loop (h : IO.FS.Stream) (d : DS) : IO Unit := do
     let defls := (splitNE (f "defl") "|").map bytesOf
     let base := mkEnv ws "keys" ss.k.nwrites
     -- the i-th compressed message gets the i-th observed deflate output
-    let (k1, wire, werr, _) := msgs.foldl (fun (acc : K × List UInt8 × Nat × Nat) (m : Nat × List UInt8) =>
-      let (k, wire, werr, ci) := acc
+    let qsize := if d.sendq > 0 && d.sendqFrom == side then d.sendq else 0
+    let (k1, wire, werr, _, _, werrs) := msgs.foldl (fun (acc : K × List UInt8 × Nat × Nat × Nat × List String) (m : Nat × List UInt8) =>
+      let (k, wire, werr, ci, qlen, werrs) := acc
       let isC := gs.writeCompression && (m.1 == 1 || m.1 == 2)
       let env : Env := { base with deflate := fun _ => defls.getD ci [] }
+      if qsize > 0 then
+        let r := appWriteQ gs env k qsize qlen m.1 m.2
+        let ec := match r.err with | some er => er.code | none => 0
+        (r.k, wire ++ r.wrote.foldr (· ++ ·) [], if werr == 0 then ec else werr, if isC then ci + 1 else ci, r.qlen, werrs ++ [toString ec])
+      else
       let (k', w) := appWrite gs env k m.1 m.2
       match w with
-      | .ok wr => (k', wire ++ wr.foldr (· ++ ·) [], werr, if isC then ci + 1 else ci)
-      | .error er => (k', wire, if werr == 0 then er.code else werr, if isC then ci + 1 else ci)) (ss.k, [], 0, 0)
+      | .ok wr => (k', wire ++ wr.foldr (· ++ ·) [], werr, if isC then ci + 1 else ci, qlen, werrs ++ ["0"])
+      | .error er => (k', wire, if werr == 0 then er.code else werr, if isC then ci + 1 else ci, qlen, werrs ++ [toString er.code])) (ss.k, [], 0, 0, 0, [])
     let ss1 : S := { ss with k := k1 }
     let cuts := (splitNE (f "cuts") ",").map String.toNat!
     let fr := feed gr (mkEnv ws "bkeys" sr.k.nwrites) sr (cutUp wire cuts) []
     let back := writesOf fr.acts
     let pb := if back.isEmpty then (⟨ss1, [], none⟩ : PR) else parse gs (mkEnv ws "rkeys" ss1.k.nwrites) ss1 back
-    IO.println s!"B werr={werr} wire={short wire} recv={showActs fr.acts} rerr={errStr fr.err} back={showActs pb.acts} berr={errStr pb.err} rcache={fr.s.cache.length} rmsglen={msgLen fr.s}"
+    IO.println s!"B werr={werr} werrs={String.intercalate "," werrs} wire={short wire} recv={showActs fr.acts} rerr={errStr fr.err} back={showActs pb.acts} berr={errStr pb.err} rcache={fr.s.cache.length} rmsglen={msgLen fr.s}"
     let down := pb.s.k.connClosed || fr.s.k.connClosed || fr.err.isSome || pb.err.isSome
     let ss2 : S := { pb.s with k := { pb.s.k with connClosed := down } }
     let sr1 : S := { fr.s with k := { fr.s.k with connClosed := down } }
